@@ -267,3 +267,88 @@ def run(F, R, tier):
                  "code edits %s / lines edits %s" % (ev["code"], ev["lines"]), F.loc(f))
     R.count("functions editing Instructions.code/lines", n_ed)
     R.floor("functions editing Instructions.code/lines", n_ed, 3)
+
+    scanner_line_rule(F, R)
+
+
+def scanner_line_rule(F, R):
+    """The line stamped on a token is the scanner's newline counter as of the token's own text.  Every Token built by
+    the scanner takes its line from a field of Scanner; that field is either the live counter itself (the field the
+    skipping code increments) or a snapshot `self.X = self.<counter>` — and a snapshot must be taken after the skipping
+    of whitespace/comments that precedes the token: no statement after it in the same function calls a unit-returning
+    scanner method that (transitively) advances the counter.  A snapshot taken before `skip_comments()` stamps the
+    first token after a comment with the comment's line, and every runtime error reported there carries that line."""
+    scan_fns = {p: g for p, g in F.fns.items() if p.startswith("scanner::Scanner::") and H.body_of(g) is not None}
+    if not R.anchor("scanner::Scanner methods", scan_fns):
+        return
+    def self_field(n):
+        n = H.strip(n)
+        if n.get("k") == "field" and n.get("base_ty", "").endswith("scanner::Scanner"):
+            return n["name"]
+        return None
+    # fields used as the line of a token
+    line_fields, sites = set(), 0
+    for p, g in scan_fns.items():
+        for c in H.walk(H.body_of(g)):
+            if c.get("k") == "call" and (c.get("callee") or "").endswith("token::Token::new") and len(c.get("args", [])) >= 3:
+                sites += 1
+                f = self_field(c["args"][2])
+                R.ob("token-line-provenance", "%s: Token::new(.., line)" % H.last(p), f is not None,
+                     "line argument %s%s" % (H.render(c["args"][2]), "" if f else " is not a field of the scanner"), F.loc(g, c.get("line")))
+                if f:
+                    line_fields.add(f)
+    R.floor("Token::new sites in the scanner", sites, 1)
+    # writers per field: increments / snapshots
+    incs, snaps = {}, {}
+    for p, g in scan_fns.items():
+        for x in H.walk(H.body_of(g)):
+            if x.get("k") == "assignop" and self_field(x["l"]):
+                incs.setdefault(self_field(x["l"]), set()).add(p)
+            elif x.get("k") == "assign" and self_field(x["l"]):
+                src = {self_field(y) for y in H.walk(x["r"]) if self_field(y)}
+                if src:
+                    snaps.setdefault(self_field(x["l"]), []).append((p, x, src))
+    # methods that advance a given field, transitively
+    def advancers(fld):
+        adv = set(incs.get(fld, ()))
+        changed = True
+        while changed:
+            changed = False
+            for p, g in scan_fns.items():
+                if p in adv:
+                    continue
+                if any(c.get("k") in ("call", "mcall") and c.get("callee") in adv for c in H.walk(H.body_of(g))):
+                    adv.add(p)
+                    changed = True
+        return adv
+    for f in sorted(line_fields):
+        if f in incs and f not in snaps:
+            R.ob("token-line-provenance", "field `%s` is the live newline counter" % f, True, "incremented in %s" % sorted(H.last(p) for p in incs[f]))
+            continue
+        for p, x, src in snaps.get(f, []):
+            g = scan_fns[p]
+            counters = [c for c in src if c in incs]
+            adv = set()
+            for c in counters:
+                adv |= advancers(c)
+            skippers = {q for q in adv if (scan_fns[q].get("ret_ty") in ("()", None)) and not any((c.get("callee") or "").endswith("token::Token::new") for c in H.walk(H.body_of(scan_fns[q])))}
+            # statements after the snapshot in its own block
+            late = []
+            for blk in H.walk(H.body_of(g)):
+                if blk.get("k") != "block":
+                    continue
+                stmts = blk.get("stmts", [])
+                idx = [i for i, st in enumerate(stmts) if any(y is x for y in H.walk(st))]
+                if not idx:
+                    continue
+                rest = stmts[idx[0] + 1:] + ([blk["expr"]] if blk.get("expr") is not None else [])
+                for st in rest:
+                    for c in H.walk(st):
+                        if c.get("k") in ("call", "mcall") and c.get("callee") in skippers and H.strip(st.get("e") or st.get("init") or st) is not None:
+                            # only calls made for their effect (statement position): the token readers return a Token
+                            if st.get("k") in ("semi", "expr") and H.strip(st.get("e") or {}) is c:
+                                late.append(H.last(c["callee"]))
+                break
+            R.ob("token-line-provenance", "%s: `%s` is a snapshot of %s" % (H.last(p), f, sorted(src)), bool(counters) and not late,
+                 ("taken before %s runs: tokens after the skipped text carry a stale line" % sorted(set(late))) if late else
+                 ("snapshot of the live counter, taken after the skipping" if counters else "not derived from a newline counter"), F.loc(g, x.get("line")))
